@@ -32,7 +32,17 @@ Record kdyn := {
   kd_files : list string                  (* observed: files of `set ssl cert`, in order *)
 }.
 
-Record kcase := { kid : N; ksteps : list (kstep * kobs); kdyns : list kdyn }.
+(* hosts level (every source of certificates: ingress tls, annotations, Gateway listeners,
+   --default-ssl-certificate): the hosts of the real haproxy model after the converters ran
+   (files named by their base name) and the crt-list file as written, line by line:
+   (certificate file, the text between [ ], filter) *)
+Record kinst := {
+  ki_default : string;
+  ki_hosts : list hcfg;
+  ki_lines : list (string * string * string)
+}.
+
+Record kcase := { kid : N; ksteps : list (kstep * kobs); kdyns : list kdyn; kinsts : list kinst }.
 
 Definition pair_eqb (a b : string * string) : bool :=
   String.eqb (fst a) (fst b) && String.eqb (snd a) (snd b).
@@ -106,8 +116,18 @@ Definition kdyn_ok (d : kdyn) : bool :=
   Bool.eqb need_reload (kd_reload d)
   && mset_eqb String.eqb (dedup_keep files []) (dedup_keep (kd_files d) []).
 
+Definition triple_eqb (a b : string * string * string) : bool :=
+  let '(a1, a2, a3) := a in let '(b1, b2, b3) := b in
+  String.eqb a1 b1 && String.eqb a2 b2 && String.eqb a3 b3.
+
+Definition kinst_ok (i : kinst) : bool :=
+  list_eqb triple_eqb
+    (map (fun g => (gl_crt g, String.concat " " (gl_opts g), gl_filter g))
+         (crt_list_gen (ki_default i) (ki_hosts i)))
+    (ki_lines i).
+
 Definition kcase_ok (c : kcase) : bool :=
-  run_ksteps (empty_state, []) (ksteps c) && forallb kdyn_ok (kdyns c).
+  run_ksteps (empty_state, []) (ksteps c) && forallb kdyn_ok (kdyns c) && forallb kinst_ok (kinsts c).
 
 Definition mismatches (cs : list kcase) : list N :=
   map kid (filter (fun c => negb (kcase_ok c)) cs).
